@@ -81,6 +81,8 @@ class Program:
         self.module = self._scope("module", None)
         self._body(tree["body"], self.module, 0)
         self.source = "\n".join(self.lines) + "\n"
+        # names that some assignment really creates as an implicit global (the assignment itself is unresolved)
+        self.implicit_globals = {o.name for o in self.occs if o.role == "write" and self.resolve(o.scope, o.name) is None}
         for o in self.occs:
             if o.role == "write":
                 # lian decides by NAME: any declaration of that name later in the same function is affected
@@ -395,8 +397,11 @@ def compare(unit, prog, bind, lang="javascript"):
             d = bind.describe(s["symbol_id"])
             md = describe_row(bind, d, prog)
             if exp is None:
+                # an assignment to an undeclared name creates a global: lian's unit-level ['global'] row for it is as
+                # good as 'unresolved' -- but only if some assignment to that name really is undeclared
                 ok = d["kind"] == "unresolved" or (d["kind"] == "decl" and d["owner"][0] == "unit"
-                                                    and d["name"] == occ.name and "global" in (d.get("attrs") or ""))
+                                                    and d["name"] == occ.name and "global" in (d.get("attrs") or "")
+                                                    and occ.name in prog.implicit_globals)
                 edesc = "unresolved (no visible declaration)"
             else:
                 ok = d["kind"] == "decl" and d["unit"] == unit and d["name"] == occ.name and md is exp
